@@ -317,6 +317,9 @@ func c19FbRun(c c19FbCase) (*vlib.Failure, c19OpStats) {
 	if len(cons.fb) != m.n || cap(cons.fb) != m.n || uintptr(unsafe.Pointer(&cons.fb[0])) != pageAddr {
 		return vlib.Failf("DriverInit (%s): framebuffer slice has %d bytes (cap %d), want height*pitch = %d bytes at the mapped page", geo, len(cons.fb), cap(cons.fb), m.n), st
 	}
+	if why := c19MappedCovers(0xe0000000, len(cons.fb)); why != "" {
+		return vlib.Failf("DriverInit (%s): %s", geo, why), st
+	}
 	if !c.AtStart {
 		cons.fb = raw // same bytes count, placed so that the last byte abuts the inaccessible page
 	}
